@@ -39,15 +39,7 @@ func runC05(p *Prog, r *Report) {
 			// same entry: header source and pipe source are fields of one received entry
 			same := false
 			if len(bt) == 1 && len(rp) == 1 {
-				h := bt[0].Args[0]
-				pp := rp[0].Args[0]
-				switch {
-				case strings.Contains(h, "$msg.m.Header") && pp == "$msg.p":
-					same = true
-				case strings.Contains(h, "φm.Header") && pp == "φp":
-					// rep: m, p = entry.m, entry.p in the receive arm
-					same = phiPairFromSameEntry(rm.fn)
-				}
+				same = sameEntryPair(bt[0].In.(*ssa.Store).Val, rp[0].In.(*ssa.Store).Val)
 			}
 			r.Check(same, R, rel+"/route-from-same-entry", rp.Pos(p), "header and pipe come from the same received queue entry", "the saved header and the saved pipe do not come from the same queue entry: the reply goes to another client's connection")
 		}
@@ -263,4 +255,77 @@ func phiPairFromSameEntry(fn *ssa.Function) bool {
 		}
 	})
 	return mSrc != nil && mSrc == pSrc
+}
+
+// sameEntryPair: the message whose Header is copied into hdrVal and the pipe stored as
+// pipeVal are the .m and .p (any two fields) of ONE received queue entry: every source of
+// both values (through phis; nil constants aside) is a field load from the same base value.
+// Decided on the values, not on the names of the locals that hold them.
+func sameEntryPair(hdrVal, pipeVal ssa.Value) bool {
+	// the message: …Header of M inside append(…, M.Header...)
+	var msg ssa.Value
+	var find func(v ssa.Value, d int)
+	find = func(v ssa.Value, d int) {
+		if d > 6 || msg != nil {
+			return
+		}
+		switch x := v.(type) {
+		case *ssa.Call:
+			for _, a := range x.Call.Args {
+				find(a, d+1)
+			}
+		case *ssa.Slice:
+			find(x.X, d+1)
+		case *ssa.UnOp:
+			if fa, ok := x.X.(*ssa.FieldAddr); ok && isMsgPtr(fa.X.Type()) && fieldName(fa.X.Type(), fa.Field) == "Header" {
+				msg = fa.X
+				return
+			}
+			find(x.X, d+1)
+		}
+	}
+	find(hdrVal, 0)
+	if msg == nil {
+		return false
+	}
+	bases := func(v ssa.Value) (map[ssa.Value]bool, bool) {
+		out := map[ssa.Value]bool{}
+		ok := true
+		var walk func(x ssa.Value, d int)
+		seen := map[ssa.Value]bool{}
+		walk = func(x ssa.Value, d int) {
+			if seen[x] || d > 6 {
+				return
+			}
+			seen[x] = true
+			switch y := x.(type) {
+			case *ssa.Phi:
+				for _, e := range y.Edges {
+					walk(e, d+1)
+				}
+			case *ssa.Const:
+			case *ssa.UnOp:
+				if fa, isFa := y.X.(*ssa.FieldAddr); isFa {
+					out[fa.X] = true
+				} else {
+					ok = false
+				}
+			case *ssa.Field:
+				out[y.X] = true
+			default:
+				ok = false
+			}
+		}
+		walk(v, 0)
+		return out, ok
+	}
+	mb, ok1 := bases(msg)
+	pb, ok2 := bases(pipeVal)
+	if !ok1 || !ok2 || len(mb) != 1 || len(pb) != 1 {
+		return false
+	}
+	for b := range mb {
+		return pb[b]
+	}
+	return false
 }
